@@ -156,8 +156,14 @@ func (c *RegConfig) ParseOrResolveBlocklisted(provided string) (string, bool) {
 	if err != nil {
 		return "", lookup
 	}
-	if addr == nil || c.isBlocklistedCovertAddr(addr.IP) {
+	// An empty host ("":80, "[]:80") resolves to an IPAddr with a nil IP, which no subnet contains
+	// and which net.Dial would treat as the local host.
+	if addr == nil || len(addr.IP) == 0 || c.isBlocklistedCovertAddr(addr.IP) {
 		return "", lookup
+	}
+	if addr.IP.To4() != nil {
+		// IPv4 addresses have no zone; an IPv4-mapped literal with one would not print as a literal
+		addr.Zone = ""
 	}
 	return net.JoinHostPort(addr.String(), port), lookup
 }
